@@ -1,0 +1,35 @@
+//go:build verif
+
+// Contracts for package quorum, read by /verif/govc (comment-only: no declarations, no effect on any build).
+
+package quorum
+
+//@ func GetWeights
+//@   props C06
+//@   ensures [copy.len] len(result) == len(members) && !isnil(result)
+//@   ensures [copy.elems] forall k :: 0 <= k && k < len(members) ==> result[k] == members[k].Weight
+//@   ensures [copy.sum] SumW(result, len(result)) == SumMW(members, len(members))
+//@   loop range members
+//@     invariant [len] len(weights) == len(members) && !isnil(weights)
+//@     invariant [elems] forall k :: 0 <= k && k < $i ==> weights[k] == members[k].Weight
+//@     invariant [sum] SumW(weights, $i) == SumMW(members, $i)
+
+//@ func CalcQuorumWeight
+//@   props C06
+//@   requires SumW(committeeWeights, len(committeeWeights)) < 2^64
+//@   ensures [value] result == Qz(SumW(committeeWeights, len(committeeWeights)))
+//@   loop range committeeWeights
+//@     invariant [sum] sum == SumW(committeeWeights, $i)
+
+//@ func CalcByzMaxWeight
+//@   props C06
+//@   requires SumW(committeeWeights, len(committeeWeights)) < 2^64
+//@   ensures [value] result == Fz(SumW(committeeWeights, len(committeeWeights)))
+//@   loop range committeeWeights
+//@     invariant [sum] sum == SumW(committeeWeights, $i)
+
+//@ func calcF
+//@   mode bv
+//@   props C06
+//@   requires totalWeight >= 1
+//@   ensures [exact] result == (totalWeight - 1) / 3
